@@ -13,6 +13,9 @@ from mc import world as W
 from mc.ref import graph as G
 from mc.ref.paths import resolve
 
+from mc import freshtier
+from mc.freshtier import compare_batch as fresh_compare_batch  # noqa: F401
+
 ID = "C15"
 LEVEL = "exploration"
 
@@ -150,12 +153,22 @@ def run(ctx):
             for missing in (miss_sets if plabel in ("none", "all") or not quick else miss_sets[:2]):
                 items.append((wname, plabel, missing))
     ctx.pmap(me, "case_batch", items, chunk=2)
+    ctx.pmap(me, "fresh_compare_batch", freshtier.items([(["clean", "-f", "--all"], None), (["clean"], "n\n"), (["clean", "A"], None), (["clean", "--all", "C"], None)], backends=("slurm", "sge", "lsf") if ctx.tier != "quick" else ("slurm", "lsf")), chunk=2)
+    ctx.notes.setdefault("coverage_extra", {})["fresh_process_cases"] = ctx.acc.extra["fresh_processes"]
     ctx.rule = "case = (workflow, protect set incl. spelling, set of missing outputs, --all, --force, target arguments, prompt answer); non-trivial = all"
     ctx.bound = dict(workflows=list(workflows()), protect_spellings=len(SPELLINGS), cli_variants=len(cli_variants(["A", "B", "C"])), items=len(items))
     ctx.assumptions = ["lexical normalisation of protect paths (same as outputs)"]
 
 
 def replay(case):
+    if case.get("kind") == "fresh":
+        from mc.runner import Acc
+
+        acc = Acc()
+        for it in freshtier.items([(["clean", "-f", "--all"], None), (["clean"], "n\n"), (["clean", "A"], None), (["clean", "--all", "C"], None)]):
+            if it[0] == case["label"] and it[2] == case["args"]:
+                freshtier.compare_batch(acc, [it])
+        return acc.violations
     from mc.runner import Acc
 
     acc = Acc()
